@@ -15,6 +15,7 @@ const (
 	ErrNilFields    Error = "contains nil field"
 	ErrSEqualT      Error = "S cannot be equal to T"
 	ErrNotValidModN Error = "S and T must be in [1,…,N-1] and coprime to N"
+	ErrTooLarge     Error = "N, S and T must not be longer than params.BitsIntModN bits"
 )
 
 func (e Error) Error() string {
@@ -112,9 +113,18 @@ func (p *Parameters) WriteTo(w io.Writer) (int64, error) {
 	}
 	nAll := int64(0)
 	buf := make([]byte, params.BytesIntModN)
+	values := []*saferith.Nat{p.n.Nat(), p.s, p.t}
+
+	// every value is written with the same fixed width; one that does not fit would lose its high bytes and be
+	// written like a different, smaller value (the parameters are public, their true size may be looked at)
+	for _, i := range values {
+		if i.TrueLen() > params.BitsIntModN {
+			return 0, ErrTooLarge
+		}
+	}
 
 	// write N, S, T
-	for _, i := range []*saferith.Nat{p.n.Nat(), p.s, p.t} {
+	for _, i := range values {
 		i.FillBytes(buf)
 		n, err := w.Write(buf)
 		nAll += int64(n)
